@@ -56,6 +56,28 @@ func (w *c11) step(t []string) string {
 			return !(n > 0 && len(out) >= n)
 		})
 		return fmtPairs(out)
+	case "rangemut":
+		// Range whose callback REMOVES a pair (key r) on its first call: every pair handed to the callback must be a pair of the bimap at that
+		// moment (Go's map iteration never produces an entry removed before it was reached), no key twice; afterwards r is gone
+		b := w.get(t[1])
+		r := atoi(t[2])
+		first, verdict := true, "ok"
+		seen := map[int]bool{}
+		b.Range(func(k, v int) bool {
+			if got, ok := b.GetForward(k); !ok || got != v {
+				verdict = "visited-a-pair-that-is-not-in-the-bimap:" + itoa(k) + ":" + itoa(v)
+			}
+			if seen[k] {
+				verdict = "visited-twice:" + itoa(k)
+			}
+			seen[k] = true
+			if first {
+				first = false
+				b.RemoveForward(r)
+			}
+			return true
+		})
+		return verdict
 	case "obs":
 		b := w.get(t[1])
 		u := atoi(t[2])
